@@ -115,7 +115,7 @@ def load_baseline(pid):
 
 
 SCRATCH = bool(os.environ.get("VERIF_REPO")) and os.path.realpath(os.environ["VERIF_REPO"]) != "/repo"
-OUT_ROOT = os.path.join(ROOT, "build", "scratch-run") if SCRATCH else ROOT
+OUT_ROOT = os.path.join(ROOT, "build", os.environ.get("VERIF_SCRATCH_OUT", "scratch-run")) if SCRATCH else ROOT
 
 
 def load_known_findings():
